@@ -1,7 +1,7 @@
 #!/bin/bash
-# usage: try_refactor.sh <worktree dir>  -- runs every check on a (supposedly behaviour-preserving) variant tree
+# usage: try_refactor.sh <tree dir>  -- runs every check (in parallel) on a (supposedly behaviour-preserving) variant tree
 wt=$1
-for p in C01 C02 C03 C04 C05 C06 C07 C08 C09 C10 C11 C12 C13 C14 C15 C16 C17 C18 C19 C20; do
-  out=$(/venv/bin/python /verif/check.py $p --repo $wt --no-evidence 2>&1); rc=$?
-  if [ $rc -ne 0 ]; then echo "== $p rc=$rc"; echo "$out" | grep -E "^VIOLATION|^ANALYSIS|^  /|^  ascmhl|^  \?" | grep -v "^VIOLATION" | head -6 | cut -c1-330; fi
-done
+run1() { p=$1; wt=$2; out=$(/venv/bin/python /verif/check.py $p --repo $wt --no-evidence --no-selftest 2>&1); rc=$?
+  if [ $rc -ne 0 ]; then echo "== $p rc=$rc"; echo "$out" | grep -E "^ANALYSIS|^  /|^  ascmhl|^  \?" | head -6 | cut -c1-330; fi; }
+export -f run1
+printf "%s\n" C01 C02 C03 C04 C05 C06 C07 C08 C09 C10 C11 C12 C13 C14 C15 C16 C17 C18 C19 C20 | xargs -P 16 -I{} bash -c "run1 {} $wt"
